@@ -111,10 +111,10 @@ def strip_common_mode(lines):
 
 
 # ---- loads: netlist lines (terminals P_, M_), and the textbook line u = E + Zl j at s0 ---
-def gen_load(rng, profile, s0):
+def gen_load(rng, profile, s0, force=None):
     s = Fraction(s0)
     r = netgen.val(rng)
-    kind = rng.choice(['R', 'RC', 'RL', 'RLC', 'VR'])
+    kind = force or rng.choice(['R', 'RC', 'RL', 'RLC', 'VR'])
     f = netgen.fs
     lines = ['Rld_ P_ xl1_ %s' % f(r)]
     E, Zl = Fraction(0), r
@@ -238,6 +238,12 @@ def tree_coq(t, s, dc):
         return '(%s [%s])' % ('Ser' if t[0] == 'ser' else 'Par', '; '.join(tree_coq(c, s, dc) for c in t[1]))
     a, b, c = leaf_line(t, s, dc)
     return '(Leaf (K:=QcF) %s %s %s)' % (q(a), q(b), q(c))
+
+
+def tree_has_src(t):
+    if t[0] in ('ser', 'par'):
+        return any(tree_has_src(c) for c in t[1])
+    return t[0] in ('V', 'I')
 
 
 def tree_has_ic(t):
@@ -391,7 +397,7 @@ def gen_cases(rng, tier):
         lines = []
         tree_lines(t, '1', '0', {}, lines)
         s0 = '%d/%d' % (rng.randint(1, 9), rng.choice([1, 2, 3]))
-        ld = gen_load(rng, prof, s0)
+        ld = gen_load(rng, prof, s0, force='VR' if (not tree_has_src(t) and rng.random() < 0.7) else None)
         cases.append({'mode': 'oneport', 'tree': t, 'netlist': lines, 'profile': prof, 's0': s0, 'tags': ['oneport', prof],
                       'load': ld['lines'], 'load_cur': ld['cur'], 'loadline': {'kind': ld['kind'], 'E': ld['E'], 'Zl': ld['Zl']}})
         k += 1
@@ -620,6 +626,8 @@ def build_tree_items(ci, case, wr, res):
     info = {'th': th, 'no': no, 'has_ic': tree_has_ic(t)}
     if info['has_ic']:
         info['bth'], info['bno'] = tree_eval(t, s0, dc, buggy=True)
+    if not dc:
+        info['dth'], info['dno'] = tree_eval(t, s0, True)     # C open, L short: the s -> 0 model
     # the harness evaluation of the tree is only used to decide WHICH comparisons make sense; the verdict is Coq's
     items.append(dict(label='%d/shape' % ci, probe='shape', role='main', defn=defn,
                       expr='Bool.eqb (has_th %s) %s && Bool.eqb (has_no %s) %s' % (name, 'true' if th else 'false', name, 'true' if no else 'false')))
@@ -942,11 +950,12 @@ def run(tier='quick', replay=None):
                 # one-port trees: ParSer.Voc / ParSer.Isc return 0 unless an INDEPENDENT source is below (6-F9)
                 api = wr['api']
                 sc = Fraction(case['s0']) if case['profile'] == 'dc' else 1
+                th_, no_ = info.get('th'), info.get('no')
                 for pb in main_failed:
                     key = 'correspondence:oneport.%s' % pb
-                    if has_ic and pb in ('Voc', 'thVoc', 'Isc', 'noIsc', 'thZ', 'noY', 'shape'):
+                    v = fr(api.get(pb))
+                    if has_ic and pb in ('Voc', 'thVoc', 'Isc', 'noIsc', 'thZ', 'noY'):
                         bth, bno = info.get('bth'), info.get('bno')
-                        v = fr(api.get(pb))
                         exp = None
                         if pb in ('Voc', 'thVoc') and bth is not None:
                             exp = bth[0]
@@ -958,16 +967,24 @@ def run(tier='quick', replay=None):
                                                        ('Voc', 'main') in failed or ('Isc', 'main') in failed):
                             # thevenin()/norton() take the dc branch (Z.subs(0)) when the ignored initial condition makes Voc/Isc vanish
                             key = 'OnePort.%s:ics-ignored' % ('thevenin' if pb == 'thZ' else 'norton')
+                    # OnePort.thevenin()/norton(): a vanishing Voc / Isc "is_dc", so the immittance is evaluated at s = 0
+                    if pb == 'thZ' and th_ is not None and th_[0] == 0 and info.get('dth') and v is not None and v == info['dth'][1]:
+                        key = 'OnePort.thevenin:zero-voc-dc-branch'
+                    if pb == 'noY' and no_ is not None and no_[0] == 0 and info.get('dno') and v is not None and v == info['dno'][1]:
+                        key = 'OnePort.norton:zero-isc-dc-branch'
                     keys[pb] = key
                     res.disagreements.append({'check': '%d/oneport.%s' % (ci, pb), 'key': key})
-                explained = has_ic and main_failed and all(k.endswith(':ics-ignored') for k in keys.values())
+                explained = bool(main_failed) and all(k.startswith('OnePort.') for k in keys.values())
                 for nm, detail in orc:
                     key = 'oracle:oneport.' + nm
                     if explained:
-                        m_ = {'ident_voc': 'Voc', 'load_thev': 'thevenin', 'line_thev': 'thevenin', 'load_nort': 'norton', 'line_nort': 'norton',
-                              'th_voc': 'thevenin', 'th_z': 'thevenin', 'no_isc': 'norton', 'no_y': 'norton', 'ident_zy': None}.get(nm)
-                        if m_:
-                            key = 'OnePort.%s:ics-ignored' % m_
+                        m_ = {'ident_voc': 'Voc', 'load_thev': 'thZ', 'line_thev': 'thZ', 'load_nort': 'noY', 'line_nort': 'noY',
+                              'th_voc': 'thVoc', 'th_z': 'thZ', 'no_isc': 'noIsc', 'no_y': 'noY'}.get(nm)
+                        alt = {'thZ': 'thVoc', 'noY': 'noIsc', 'Voc': 'Isc'}
+                        if m_ in keys:
+                            key = keys[m_]
+                        elif alt.get(m_) in keys:
+                            key = keys[alt[m_]]
                     keys['oracle:' + nm] = key
             orc_d = dict(orc)
             for name, key in keys.items():
